@@ -164,3 +164,87 @@ def checks(tier):
                outside="network transports, C git peers, protocol capabilities (in-process path only); depth", time_budget=2400,
                tiers=q),
     ]
+
+
+# ---------------------------------------------------------------------------------------------
+# (c) the server never sends what it did not advertise
+from io import BytesIO
+from dulwich.protocol import Protocol, pkt_line
+from dulwich.server import UploadPackHandler, DictBackend
+from dulwich.errors import GitProtocolError, HangupException
+
+
+def h_upload_pack(eng, branch_at=0):
+    """upload-pack over an in-memory pkt-line stream: every object in the pack that is sent is reachable from the
+    advertised refs, and a request that names an unadvertised object on any want line is refused"""
+    objs, commits, tags, adj = _graph(eng, gitlink=False, tag_target=0)
+    d = scratch("c05u")
+    repo = Repo.init_bare(d)
+    try:
+        for o in objs:
+            repo.object_store.add_object(o)
+        tip = commits[branch_at]
+        repo.refs[b"refs/heads/main"] = tip.id
+        advertised = {tip.id}
+        allowed = _closure(adj, advertised)
+        # candidate wants: the advertised tip, and commits that may or may not be reachable from it
+        cand = [c.id for c in commits]
+        nw = 1 + eng.choice("extra_wants", 2)
+        wants = [cand[eng.choice(f"want{i}", 3)] for i in range(nw)]
+        lines = []
+        for i, w in enumerate(wants):
+            lines.append(pkt_line(b"want " + w + (b" ofs-delta side-band-64k thin-pack" if i == 0 else b"") + b"\n"))
+        req = b"".join(lines) + pkt_line(None) + pkt_line(b"done\n")
+        inf = BytesIO(req)
+        out = []
+        proto = Protocol(inf.read, out.append)
+        h = UploadPackHandler(DictBackend({b"/": repo}), [b"/"], proto, stateless_rpc=True)
+        refused = False
+        try:
+            h.handle()
+        except (GitProtocolError, HangupException):
+            refused = True
+        proto._close = None
+        raw = b"".join(out)
+        frames = []
+        from dulwich.protocol import PktLineParser
+        try:
+            PktLineParser(frames.append).parse(raw)
+        except GitProtocolError:
+            pass
+        data = b"".join(f[1:] for f in frames if f and f[:1] == b"\x01")
+        unadvertised = [w for w in wants if w not in advertised]
+        if unadvertised:
+            eng.prove(refused, "a want for an object that was not advertised is refused, on whichever want line it appears")
+        i = data.find(b"PACK")
+        if i >= 0:
+            from dulwich.object_store import MemoryObjectStore as _M
+            rx = _M()
+            f = BytesIO(data[i:])
+            rx.add_thin_pack(f.read, None)
+            sent = set(rx)
+            eng.prove(not unadvertised, "no pack is sent for a request naming unadvertised objects")
+            eng.prove(sent <= allowed, "every object sent is reachable from the advertised refs")
+            eng.prove(_closure(adj, wants) <= sent, "the pack holds the complete closure of the wants (client had nothing)")
+        else:
+            eng.prove(bool(unadvertised), "a valid request is answered with a pack")
+    finally:
+        repo.close()
+        shutil.rmtree(d, ignore_errors=True)
+
+
+_c05_base = checks
+
+
+def checks(tier):
+    q = ("quick", "thorough")
+    return _c05_base(tier) + [
+        KCheck("C05c.upload_pack_wants", h_upload_pack, parts=[{"branch_at": b} for b in range(3)],
+               encoded=["dulwich.server.UploadPackHandler.handle", "dulwich.server._ProtocolGraphWalker.determine_wants",
+                        "dulwich.server._split_proto_line", "dulwich.object_store.MissingObjectFinder",
+                        "dulwich.pack.write_pack_from_container"],
+               bounds="same histories; server advertises one branch at any commit; the client sends 1-2 want lines, each naming "
+                      "any of the three commits (advertised, reachable-but-unadvertised, unreachable), then done; real "
+                      "UploadPackHandler over an in-memory pkt-line stream; the pack sent is unpacked and inspected",
+               outside="haves/ack negotiation modes, side-band, shallow, protocol v2, allow-*-sha1-in-want options", tiers=q),
+    ]
